@@ -443,7 +443,15 @@ fn check_for_string(src: &str) -> Option<(TokenKind, usize)>
 	if !walker.consume_char('\"')
 		{ return None; }
 		
-	walker.consume_until_char('\"');
+	// Skip over escape sequences, so that `\"` does not end the string
+	while !walker.ended() && walker.current != '\"'
+	{
+		if walker.current == '\\'
+			{ walker.advance(); }
+
+		if !walker.ended()
+			{ walker.advance(); }
+	}
 		
 	if !walker.consume_char('\"')
 		{ return None; }
